@@ -264,10 +264,22 @@ class MetaEphemeral(type):
     generated.
     """
     cache = {}
+    # Ephemeral classes defined in this process, by name.
+    by_name = {}
 
     def __new__(meta, name, func, ret=__type__, id_=None):
-        if id_ in MetaEphemeral.cache:
+        if id_ in MetaEphemeral.cache and MetaEphemeral.cache[id_].name == name:
             return MetaEphemeral.cache[id_]
+        if id_ is not None:
+            # Unpickling in another process than the one that pickled: the
+            # id cannot match. Resolve to the ephemeral this process defined
+            # under that name (as for the classes of the creator), so that
+            # restored trees and the primitive set share one class and one
+            # generating function; a copy rebuilt from the pickled function
+            # would carry its own copy of the random generator.
+            cls = MetaEphemeral.by_name.get(name)
+            if cls is not None and cls.ret == ret:
+                return cls
 
         if isinstance(func, types.LambdaType) and func.__name__ == '<lambda>':
             warnings.warn("Ephemeral {name} function cannot be "
@@ -286,6 +298,7 @@ class MetaEphemeral(type):
 
         cls = super(MetaEphemeral, meta).__new__(meta, name, (Terminal,), attr)
         MetaEphemeral.cache[id(cls)] = cls
+        MetaEphemeral.by_name[name] = cls
         return cls
 
     def __init__(cls, name, func, ret=__type__, id_=None):
